@@ -1,7 +1,7 @@
 """C04 - a library server never acknowledges a protocol version it does not support."""
 from harness.sm import *  # noqa
 from harness import sm
-from harness.h_C08 import init_version, near_version, reinit, make_server, VER, _in, init_long, init_nth  # noqa
+from harness.h_C08 import init_version, near_version, reinit, make_server, VER, _in, init_long, init_nth, init_twice, SUP0  # noqa
 import importlib
 
 INIT = sys.modules["chuk_mcp.protocol.messages.initialize.send_messages"]
@@ -42,7 +42,7 @@ def pairing(supported, pref):
     wire = []
     out = Outcome()
     classify(out, lambda: drive(INIT.send_initialize(_PipeRead(s, wire), _PipeWrite(wire), timeout=5, supported_versions=list(supported), preferred_version=pref)))
-    sup_srv = list(VER.SUPPORTED_VERSIONS)
+    sup_srv = list(SUP0)
     sessions = s.protocol_handler.session_manager.list_sessions()
     if out.kind == "result":
         v = out.value.protocolVersion
